@@ -124,6 +124,36 @@ func failingAfter(text string) templ.Component {
 	})
 }
 
+// codePage is a hand-written page: a script template, a once handle, a css class and the context nonce used directly,
+// with whatever context the caller passes (here: context.Background(), never initialised by templ).
+func codePage(name string) templ.Component {
+	return templ.ComponentFunc(func(ctx context.Context, w io.Writer) error {
+		if _, err := io.WriteString(w, "<main data-nonce=\""+templ.GetNonce(ctx)+"\">"); err != nil {
+			return err
+		}
+		if err := greet(name).Render(ctx, w); err != nil {
+			return err
+		}
+		block := templ.ComponentFunc(func(ctx context.Context, w io.Writer) error {
+			_, err := io.WriteString(w, "<i>once "+name+"</i>")
+			return err
+		})
+		for i := 0; i < 2; i++ {
+			if err := templ.NewOnceHandle().Once().Render(templ.WithChildren(ctx, block), w); err != nil {
+				return err
+			}
+		}
+		if err := templ.RenderCSSItems(ctx, w, boxed()); err != nil {
+			return err
+		}
+		if err := templ.RenderScriptItems(ctx, w, greet(name)); err != nil {
+			return err
+		}
+		_, err := io.WriteString(w, "</main>")
+		return err
+	})
+}
+
 func jobs() map[string]job {
 	return map[string]job{
 		"pageA":         {false, "pageA", func() templ.Component { return Page("alice", []string{"a1", "a2"}) }, -1, false, false, false},
@@ -150,6 +180,9 @@ func jobs() map[string]job {
 		// streamed responses (flushable writers) next to plain ones
 		"streamA":  {name: "streamA", mk: func() templ.Component { return Page("alice", []string{"a1"}) }, failAt: -1, stream: true},
 		"streamB":  {name: "streamB", mk: func() templ.Component { return Small("b") }, failAt: -1, stream: true},
+		// pages written in Go: library components rendered with a context that never went through InitializeContext
+		"codeA": {name: "codeA", failAt: -1, mk: func() templ.Component { return codePage("alice") }},
+		"codeB": {name: "codeB", failAt: -1, mk: func() templ.Component { return codePage("bob") }},
 		"bigFail":  {false, "bigFail", func() templ.Component { return Big("FFFF") }, 40, false, false, false},
 		"pageFail": {false, "pageFail", func() templ.Component { return Page("carol", []string{"c1"}) }, 70, false, false, false},
 	}
@@ -281,7 +314,7 @@ func devModeReady() bool { return templruntime.VerifDevMode() }
 
 func raceMode(ref map[string]outcome) {
 	all := jobs()
-	names := []string{"streamA", "smallB", "streamB", "pageA", "pageB", "bigA", "bigB", "smallA", "smallB", "bigFail", "pageFail", "spreadA", "spreadB", "kitchenA", "kitchenB", "kitchenB", "kitchenA", "otherA", "smallA", "otherA", "handlerOK", "handlerFail", "mwA", "mwB", "mwA", "handlerFailEH", "handlerOK"}
+	names := []string{"codeA", "streamA", "smallB", "codeB", "streamB", "pageA", "pageB", "bigA", "bigB", "smallA", "smallB", "bigFail", "pageFail", "spreadA", "spreadB", "kitchenA", "kitchenB", "kitchenB", "kitchenA", "otherA", "smallA", "otherA", "handlerOK", "handlerFail", "mwA", "mwB", "mwA", "handlerFailEH", "handlerOK"}
 	var wg sync.WaitGroup
 	var mu sync.Mutex
 	mismatch := ""
@@ -396,6 +429,7 @@ func main() {
 		{"3 requests through the buffered HTTP handler, the first fails into a custom error handler, then two overlap", [][]string{{"handlerFailEH", "handlerOK"}, {"handlerOK"}}},
 		{"3 requests through one shared CSS middleware (registered class, inline class, script template)", [][]string{{"mwA", "mwB"}, {"mwB"}}},
 		{"streamed renders (flushable writers) and plain renders sharing the buffer pool", [][]string{{"streamA", "smallB"}, {"pageB", "streamB"}}},
+		{"pages written in Go that use library components with a context templ never initialised", [][]string{{"codeA", "codeB"}, {"codeB"}}},
 	}
 	if dev {
 		scenarios = []scenario{
